@@ -30,7 +30,7 @@ func init() {
 
 func checkC03Read(c c03ReadCase) string {
 	b := renderTTML(c.Doc, c.Rend)
-	s, err := astisub.ReadFromTTML(bytes.NewReader(b))
+	s, err := astisub.ReadFromTTML(deliver(b))
 	if err != nil {
 		return fmt.Sprintf("reader rejected a well-formed document: %v\n--- document ---\n%s", err, clip(string(b), 1200))
 	}
